@@ -72,6 +72,7 @@ func (c *c02Checker) countCase(level, src string, r c02Req, nontrivial bool) {
 	if _, ok := c.distinct[k]; !ok {
 		c.distinct[k] = struct{}{}
 		c.res.Distinct++
+		c.res.Sample(4, map[string]any{"level": level, "source": src, "request": r.String()})
 	}
 }
 
